@@ -9,6 +9,7 @@ import DG.JsrProto
 import DG.ModInfoProto
 import DG.TextPos
 import DG.Exports
+import DG.EraseProto
 /-! Line-protocol driver: one request per line on stdin, one answer per line on stdout. -/
 open DG DG.Sexp
 
@@ -243,7 +244,10 @@ def handle (st : DState) (req : Sexp) : DState × String :=
     | _, _ => (st, "bad-op")
   | .list [.atom "valid"] =>
     (st, match st.graph.valid with | some e => e.show | none => "ok")
-  | _ => (st, "bad-op")
+  | other =>
+    match DG.FC.Proto.handle other with
+    | some ans => (st, ans)
+    | none => (st, "bad-op")
 
 partial def loop (h : IO.FS.Stream) (out : IO.FS.Stream) (st : DState) : IO Unit := do
   let line ← h.getLine
